@@ -44,12 +44,13 @@ SeqIn(s, S) == \A k \in 1..Len(s) : s[k] \in S
 WellFormed(c) ==
   /\ c.r \in Temps
   /\ SeqIn(c.a, Operands(c.r)) /\ SeqIn(c.b, Operands(c.r))
-  /\ Len(c.a) >= 1
+  /\ (Len(c.a) >= 1 \/ c.op = "Activate")
 
 MatrixOf(c) == [i \in 1..c.p[1] |-> [j \in 1..c.p[2] |-> c.a[(i - 1) * c.p[2] + j]]]
 
 Apply(c) ==
-  CASE c.op \in UnaryOps  -> Len(c.a) = 1 /\ Unary(c.op, c.r, c.a[1])
+  CASE c.op = "Activate"  -> Len(c.p) = 1 /\ c.p[1] \in Vars /\ Activate(c.r, c.p[1])
+    [] c.op \in UnaryOps  -> Len(c.a) = 1 /\ Unary(c.op, c.r, c.a[1])
     [] c.op \in BinaryOps -> Len(c.a) = 2 /\ Binary(c.op, c.r, c.a[1], c.a[2])
     [] c.op \in ParamOps  -> Len(c.a) = 1 /\ Param(c.op, c.p[1], c.p[2], c.r, c.a[1])
     [] c.op \in {"Vmean", "Vnorm"} -> VecReduce(c.op, c.r, c.a, <<>>, Rat(1, 1))
